@@ -240,6 +240,36 @@ def glue_streams(ctx, phys, quick):
             ctx.finding("design-search-sequence-not-of-this-exchanger", f"{label}: (load, hour) sequence differs from the one of a HybridLoad built for the same exchanger", replay)
 
 
+def multiyear_stream(ctx, phys):
+    """Peak retention of HybridLoad objects built directly with multi-year `years` lists (distinct peaks in
+    every month of every load year).  With a leap year in the list the pulses are placed with a calendar
+    that is 24 h off for the other years (known finding multi-year-leap-calendar)."""
+    jobs = H.multiyear_jobs(ctx.rng, phys, "peaky")
+    outs = core.pool_map(H.run_multiyear, jobs)
+    for a, o in zip(jobs, outs):
+        years = a["years"]
+        n = 12 * len(years)
+        label = f"HybridLoad(years={years}, {n} months)"
+        replay = {"builder": "hybridlib.run_multiyear", "args": {k: v for k, v in a.items() if k != "phys"}, "phys": a["phys"]}
+        ctx.count("multi-year:" + ("with-leap-year" if H.has_leap(years) else "ordinary-years"))
+        if "raise" in o:
+            ctx.case(("multi-year", tuple(years), a["seed"]), False)
+            ctx.finding("multi-year-raise", f"{label} raised {o['raise']}", replay)
+            continue
+        ctx.case(("multi-year", tuple(years), a["seed"]), True)
+        snap = o["snap"]
+        raw = H.multiyear_profile(a["seed"], years, "peaky")
+        if H.has_leap(years):
+            # signature of the known finding: the month ends of the sequence are not those of the load years
+            ends = {float(H.oracle_month_end(i, years)) for i in range(1, n + 1)}
+            if not ends <= set(snap["hour"]):
+                missing = sorted(ends - set(snap["hour"]))
+                ctx.finding("multi-year-leap-calendar", f"{label}: {len(missing)} month end(s) of the load years are not breakpoints (first: hour {missing[0]}); "
+                            "pulses of those months are placed relative to a calendar that is 24 h off", replay)
+                continue
+        retention_object(ctx, label, snap, raw, years, 1, n, replay, "multi-year-")
+
+
 def run(ctx: core.Ctx):
     ctx.rule = ("case = (hourly profile, borehole/ground parameter set, horizon) as in C06 with 5 (quick) / 200 (thorough) parameter sets, plus "
                 "arbitrary two-day windows through perform_current_month_simulation; distinct = distinct (kind, seed, parameter set, horizon); "
@@ -350,6 +380,7 @@ def run(ctx: core.Ctx):
 
     # ------------------------------------------------------------------ the glue: real GHE objects and design searches
     glue_streams(ctx, physs[0], quick)
+    multiyear_stream(ctx, physs[0])
 
     # ------------------------------------------------------------------ perform_current_month_simulation on arbitrary windows vs the model
     n_w = 200 if quick else 4000
